@@ -30,7 +30,16 @@
 (*                                 TearSheetAssetGenerator::update_from_balance *)
 (*          Generate               TradingSummaryGenerator::generate /     *)
 (*                                 TearSheetGenerator::generate             *)
-(*          AddValue(x)            DataSetSummary::update                   *)
+(*          AddValue(x)            DataSetSummary::update (directly, or as  *)
+(*                                 PnLReturns::update does: every return    *)
+(*                                 into `total`, the negative ones also     *)
+(*                                 into `losses` = DataSet(NegOf(vals)))    *)
+(*          Persist                the running generators are serialisable: *)
+(*                                 storing and restoring them (serde) is a  *)
+(*                                 STUTTER of the abstract state - a        *)
+(*                                 restored summary is the same summary,    *)
+(*                                 every later figure is still the figure   *)
+(*                                 of the whole history (PersistIsStutter)  *)
 (*                                                                         *)
 (* A closed position is (pnl, cost) with cost = price_entry_average *      *)
 (* quantity_abs_max > 0; its return is pnl / cost                          *)
@@ -202,13 +211,23 @@ AddValue(x) ==
   /\ last' = Ev("AddValue", "", x, 0)
   /\ UNCHANGED <<closed, acc, bal, out>>
 
+\* store + restore of the running generators: nothing the figures depend on changes
+Persist ==
+  /\ last' = Ev("Persist", "", 0, 0)
+  /\ UNCHANGED <<closed, acc, bal, out, vals, wf>>
+
+\* the losing returns: what PnLReturns keeps in `losses`
+NegOf(v) == SelectSeq(v, LAMBDA x : x < 0)
+
 AddClosedAny  == \E i \in Instr, p \in PnLs, c \in Costs : NClosed < MaxClosed /\ AddClosed(i, p, c)
 AddBalanceAny == \E a \in Asset, b \in Bals : NBal < MaxBal /\ AddBalance(a, b)
 GenerateAny   == out = <<>> /\ Generate
 AddValueAny   == \E x \in Vals : Len(vals) < MaxVals /\ AddValue(x)
 
-NextC16 == AddClosedAny \/ AddBalanceAny \/ GenerateAny
-NextC17 == AddValueAny
+PersistAny    == last.a # "Persist" /\ last.a # "Init" /\ Persist
+
+NextC16 == AddClosedAny \/ AddBalanceAny \/ GenerateAny \/ PersistAny
+NextC17 == AddValueAny \/ PersistAny
 SpecC16 == Init /\ [][NextC16]_vars
 SpecC17 == Init /\ [][NextC17]_vars
 
@@ -218,6 +237,11 @@ TypeC16 ==
   /\ \A i \in Instr : \A k \in Idx(closed[i]) : closed[i][k].pnl \in PnLs /\ closed[i][k].cost \in Costs
   /\ \A a \in Asset : \A k \in Idx(bal[a]) : bal[a][k] \in Bals
   /\ Len(out) <= 1
+
+\* a store / restore changes no figure, now or later (the figures are functions of the histories)
+PersistIsStutter == [][last'.a = "Persist" =>
+                         /\ SummaryOf(closed', bal') = SummaryOf(closed, bal) /\ acc' = acc /\ out' = out
+                         /\ DataSet(vals') = DataSet(vals) /\ DataSet(NegOf(vals')) = DataSet(NegOf(vals)) /\ wf' = wf]_vars
 
 \* a generated summary is the summary of the histories, key by key
 GenerateIsBatch == out # <<>> =>
@@ -279,6 +303,10 @@ ShiftScale ==
      /\ Len(vals) > 0 => MeanOf(sh) = Add(MeanOf(vals), R(7))
      /\ VarOf(sc) = Mul(R(4), VarOf(vals))
      /\ MeanOf(sc) = Mul(R(-2), MeanOf(vals))
+\* the losing returns are a sub-dataset: never more, never larger than the whole
+LossesAreSubset == LET n == NegOf(vals)
+                   IN /\ Len(n) <= Len(vals) /\ (Len(n) = Len(vals) <=> \A k \in Idx(vals) : vals[k] < 0)
+                      /\ Len(n) > 0 => Hi(n) < 0 /\ Lo(n) = Lo(vals) /\ Lt(MeanOf(n), Zero) /\ Leq(MeanOf(n), MeanOf(vals))
 \* the one-pass recurrences equal the batch definitions in exact arithmetic
 WelfordExact == /\ wf.n = Len(vals) /\ wf.sum = ISum(vals)
                 /\ wf.mean = MeanOf(vals)
